@@ -15,6 +15,7 @@ def _ep():
 # method sets exactly as the real Route constructor normalises them
 METHOD_DECLS = [None, ['get'], ['POST'], ['GET', 'post']]
 METHODS = [Route('/x', _ep, methods=m).methods for m in METHOD_DECLS]
+FROZEN = [None if m is None else frozenset(m) for m in METHODS]
 REQ_METHODS = ['GET', 'HEAD', 'pOsT', 'PUT']
 _REQS = [Request(EnvironBuilder(path='/x', method=m).get_environ()) for m in REQ_METHODS]
 NBEH = 7
@@ -31,7 +32,8 @@ class StubRoute(object):
 
     def __init__(self, idx, pmatch, msel, beh):
         self.idx, self.pmatch, self.beh = idx, pmatch, beh
-        self.methods = METHODS[msel]
+        self.methods = None if METHODS[msel] is None else set(FROZEN[msel])    # every stub route owns its set
+        self.msel = msel
         self.pattern = '/stub%d' % idx
 
     def match_path(self, path):
@@ -58,7 +60,7 @@ class StubRoute(object):
 
 
 def _admits(msel, method):
-    ms = METHODS[msel]
+    ms = FROZEN[msel]
     if not ms:
         return True
     return any(method.lower() == x.lower() for x in ms)
@@ -72,7 +74,7 @@ def spec(table, method, pre_nb, pre_allowed):
         if not pm:
             continue
         if not _admits(msel, method):
-            allowed |= set(METHODS[msel])
+            allowed |= set(FROZEN[msel])
             continue
         if b == 0:
             return ('resp', i)
@@ -124,7 +126,11 @@ def _dispatch(table, mi, pre_nb, pre_allowed):
     o = A.DispatchState
     A.DispatchState = mk_state
     try:
-        return app.dispatch(_REQS[mi])
+        out = app.dispatch(_REQS[mi])
+        for r in app.routes:
+            if (r.methods is None) != (FROZEN[r.msel] is None) or (r.methods is not None and r.methods != FROZEN[r.msel]):
+                return 'MUTATED'          # dispatch changed a route's method set
+        return out
     finally:
         A.DispatchState = o
         app.routes = []
@@ -132,7 +138,7 @@ def _dispatch(table, mi, pre_nb, pre_allowed):
 
 def _check(ret, kind, who):
     if not isinstance(ret, BaseResponse):
-        return False
+        return False          # includes the 'MUTATED' marker of _dispatch
     if kind == 'resp':
         return (not isinstance(ret, HTTPException)) and ret.get_data() == b'R%d' % who
     if kind == 'nb':
@@ -198,7 +204,15 @@ def confirm_dispatch(rows, mi, pre_nb, pre_allowed):
     app = Application(routes)
     ret = app.dispatch(_REQS[mi])
     kind, who = spec(table, REQ_METHODS[mi], pre_nb, pre_allowed)
-    return not _check(ret, kind, who)
+    if not _check(ret, kind, who):
+        return True
+    # a request must not change how later requests are routed (e.g. by mutating a route's method set)
+    for mj in range(len(REQ_METHODS)):
+        ret = app.dispatch(_REQS[mj])
+        kind, who = spec(table, REQ_METHODS[mj], pre_nb, pre_allowed)
+        if not _check(ret, kind, who):
+            return True
+    return False
 
 
 # ---- method admission in isolation, symbolic method text
@@ -224,3 +238,60 @@ def ob_method_norm(a: int, b: int, dup: bool) -> bool:
     if 'GET' in want:
         want.add('HEAD')
     return r.methods == want and all(n.upper() in HTTP_METHODS for n in decl)
+
+
+# ---- tables built by add() calls interleaved with requests
+from harness.util import R, untraced
+
+
+def _mkep(tag):
+    def ep():
+        return Response(tag)
+    return ep
+
+
+def _add_history(i0, i1, patt0, patt1, warm):
+    """constructor list [/<name>, /b] then add(e0, i0), [request], add(e1, i1): first match in CURRENT list order"""
+    def ep_name(name):
+        return Response('name:' + name)
+    app = Application([('/<name>', ep_name), ('/b', _mkep('b'))])
+    model = [('/<name>', 'name'), ('/b', 'b')]
+    P = ['/a', '/b', '/<other>']
+    IDX = [None, 0, 1, 2, 5]
+
+    def answer(path):
+        for patt, tag in model:
+            if patt.startswith('/<') or patt == path:
+                return ('name:' + path[1:]) if tag == 'name' else tag
+        return None
+
+    def check():
+        for path in ('/a', '/b', '/zzz'):
+            resp = app.dispatch(Request(EnvironBuilder(path=path).get_environ()))
+            if resp.get_data(True) != answer(path):
+                return False
+        return True
+    for step, (pi, ii) in enumerate(((patt0, i0), (patt1, i1))):
+        if warm or step == 1:
+            if not check():
+                return False
+        tag = 'new%d' % step
+        patt = P[pi]
+        ep = (lambda other, tag=tag: Response(tag)) if '<' in patt else _mkep(tag)
+        idx = IDX[ii]
+        if idx is None:
+            app.add((patt, ep))
+            model.append((patt, tag))
+        else:
+            app.add((patt, ep), index=idx)
+            model.insert(min(idx, len(model)), (patt, tag))
+    return check() and [r.pattern for r in app.routes] == [p for p, _ in model]
+
+
+def ob_add_history(i0: int, i1: int, patt0: int, patt1: int, warm: bool) -> bool:
+    with untraced():
+        return _add_history(i0, i1, patt0, patt1, warm)
+
+
+def confirm_add_history(i0, i1, patt0, patt1, warm):
+    return not _add_history(i0, i1, patt0, patt1, warm)
